@@ -173,7 +173,8 @@ def run(ctx):
     # util::MutableVocab (word -> id through the same table, keyed by the word's 64-bit hash): distinct words get distinct consecutive ids,
     # repeats get their first id, also for two words whose hashes agree in the low 32 bits (keys that collide modulo EVERY table size)
     pair = pvlib.low32_pair(0, b"w")
-    vw = [b"the", b"cat", b"the", b"caf\xc3\xa9", b"x", b"cat"]        # (no empty word: its hash is 0, the table's empty-bucket marker, and no tool passes one) + ([pair[0], b"mid", pair[1], pair[0]] if pair else []) + [b"w%d" % i for i in range(300)] + [b"w7"]
+    # (no empty word: its hash is 0, the table's empty-bucket marker, and no tool passes one)
+    vw = [b"the", b"cat", b"the", b"caf\xc3\xa9", b"x", b"cat"] + ([pair[0], b"mid", pair[1], pair[0]] if pair else []) + [b"w%d" % i for i in range(300)] + [b"w7"]
     ids, nxt, want_ids = {}, 1, []
     for w_ in vw:
         if w_ not in ids:
